@@ -201,7 +201,7 @@ impl Hypergeometric {
         // J. Statist. Comput. Simul. Vol.22 (August 1985), 127-145
         // https://www.researchgate.net/publication/233212638
         const HIN_THRESHOLD: f64 = 10.0;
-        let m = ((k + 1) as f64 * (n1 + 1) as f64 / (n + 2) as f64).floor();
+        let m = ((k as f64 + 1.0) * (n1 as f64 + 1.0) / (n as f64 + 2.0)).floor();
         let sampling_method = if m - f64::max(0.0, k as f64 - n2 as f64) < HIN_THRESHOLD {
             let (initial_p, initial_x) = if k < n2 {
                 (
